@@ -73,7 +73,8 @@ def _process_signal(case, tally):
     path, logf = os.path.join(d, "s.sock"), os.path.join(d, "log")
     cmd = [sys.executable, "-m", "hypercorn", "--bind", "unix:" + path, "--workers", str(workers), "--worker-class", be,
            "--graceful-timeout", "10", "hv.apps.procapp:app"]
-    proc = subprocess.Popen(cmd, env=dict(os.environ, HV_PROC_LOG=logf), stdout=subprocess.PIPE, stderr=subprocess.STDOUT, cwd=d)
+    proc = subprocess.Popen(cmd, env=dict(os.environ, HV_PROC_LOG=logf), stdout=subprocess.PIPE, stderr=subprocess.STDOUT, cwd=d,
+                            start_new_session=True)  # (a process group of its own: workers a master leaves behind are cleared away with it)
     results, rc = {}, None
     try:
         end = time.monotonic() + 20.0
@@ -126,9 +127,16 @@ def _process_signal(case, tally):
         except subprocess.TimeoutExpired:
             rc = "timeout"
     finally:
+        try:
+            os.killpg(proc.pid, signal.SIGKILL)
+        except (ProcessLookupError, PermissionError):
+            pass
         if proc.poll() is None:
             proc.kill()
-            proc.communicate()
+        try:
+            proc.communicate(timeout=10.0)
+        except subprocess.TimeoutExpired:
+            pass
         log = [ln.split() for ln in (open(logf).read().splitlines() if os.path.exists(logf) else [])]
         shutil.rmtree(d, ignore_errors=True)
     log = [f for f in log if len(f) == 4]
